@@ -159,7 +159,73 @@ def run_enumeration(record, known=None, kinds=('KeyboardInterrupt', 'MemoryError
 FAULT_KINDS = [('line', 'KeyboardInterrupt'), ('line', 'MemoryError'), ('deepcopy', 'MemoryError')]
 
 
+def recipe_with_bake_fault(record, known, fault):
+    """Replay a recipe program; the first bake() runs with an injected fault; every object handed to the recipe (and every
+    slice the user built for it) must be unchanged afterwards.  fault: {'kind':'line','exc':..,'frac'|'k':..}"""
+    from . import engine_b
+    from .recipe_exec import RecipeRun
+    rep = env.load_replica()
+
+    def prefix():
+        rep.clear_caches()
+        run = RecipeRun(rep, record['subs'], known, record.get('profile', {}))
+        for ev in record.get('prelude', []):
+            run.bench.step(ev)
+        for c in record['events']:
+            if c['c'] == 'bake':
+                return run
+            run.do_call(c)
+        return None
+    run = prefix()
+    if run is None:
+        return None
+    tr = faults.LineTracer(include_copy=True)
+    tr.run(lambda: faults.call_catching(run.recipe.bake))
+    n = tr.n
+    if n == 0:
+        return None
+    if 'k' not in fault:
+        fault['k'] = max(1, min(n, int(round(fault['frac'] * n)) or 1))
+    fault['n'] = n
+    run = prefix()
+    tr = faults.LineTracer(min(fault['k'], n), fault.get('exc', 'KeyboardInterrupt'))
+    out = tr.run(lambda: faults.call_catching(run.recipe.bake))
+    run.idx = len(record['events'])
+    kind = 'bake-line-' + fault.get('exc', 'KeyboardInterrupt')
+    if tr.fired_at is not None:
+        run.stats['fault:' + kind] += 1
+        if not out[0].startswith('injected:'):
+            run.stats['fault:absorbed'] += 1
+    nv = len(run.violations)
+    run.check_handles('bake')
+    for v in run.violations[nv:]:
+        v.clause = 'mutated_after_fault'
+        v.key = ('recipe.bake', kind, v.key[-1])
+        v.detail = f"fault {kind}@{fault['k']}/{n}: " + v.detail
+    run.sig.add(('fault', 'recipe.bake', kind, min(4, (fault['k'] - 1) * 5 // max(n, 1))))
+    return run
+
+
+def run_recipe_mode(prop, seed, run_idx, tier, known):
+    from . import engine_b
+    rng = derive_rng(seed, prop + ':bakefault', run_idx)
+    record, run = engine_b.run_generated('C04', seed, run_idx, tier, known)
+    record['engine'] = 'C04'
+    record['mode'] = 'recipe'
+    exc = rng.choice(['KeyboardInterrupt', 'MemoryError'])
+    frac = rng.uniform(0.8, 1.0) if rng.random() < 0.33 else rng.uniform(0.0, 1.0)
+    record['bake_fault'] = {'kind': 'line', 'exc': exc, 'frac': round(frac, 6)}
+    frun = recipe_with_bake_fault(record, known, record['bake_fault'])
+    if frun is not None:
+        run.violations.extend(v for v in frun.violations if v.prop == 'C04' and v.clause == 'mutated_after_fault')
+        run.stats.update({k: v for k, v in frun.stats.items() if k.startswith('fault:')})
+        run.sig.update(t for t in frun.sig if t and t[0] == 'fault')
+    return record, run
+
+
 def run_generated(prop, seed, run, tier, known=None):
+    if run >= N_CORPUS and (run - N_CORPUS) % 3 == 2:
+        return run_recipe_mode(prop, seed, run, tier, known)
     if run < N_CORPUS:
         rec = corpus_record(run)
         stride = 1
@@ -199,6 +265,14 @@ def run_generated(prop, seed, run, tier, known=None):
 
 
 def run_replay(record, known=None):
+    if record.get('mode') == 'recipe':
+        from . import engine_b
+        run = engine_b.run_replay(record, known)
+        if record.get('bake_fault'):
+            frun = recipe_with_bake_fault(record, known, dict(record['bake_fault']))
+            if frun is not None:
+                run.violations.extend(v for v in frun.violations if v.prop == 'C04' and v.clause == 'mutated_after_fault')
+        return run
     if record.get('mode') == 'enumerate':
         return run_enumeration(record, known, kinds=tuple(record.get('kinds', ('KeyboardInterrupt', 'MemoryError'))))
     rep = env.load_replica()
